@@ -79,17 +79,7 @@ def check(case):
         if w0 or d0:
             # shared with y=0: blame the root cause found by the C02/C03 monitors on this very case
             if w0:
-                CC.install_counterfactual()
-                CC.COUNTERFACTUAL["no_inplace_not"] = True
-                try:
-                    qc2, n2, r2, e2, _ = K.compile_case(case, True)
-                    o2 = CC.observe(qc2, n2, r2, e2)
-                    if not o2.wrong_out and not o2.ret_unmapped:
-                        pred = "c02_inplace_not_clobbers_operand"
-                except Exception:
-                    pass
-                finally:
-                    CC.COUNTERFACTUAL["no_inplace_not"] = False
+                pred = CC.blame_wrong_output(case, True, K.compile_case, log)
                 where.append("wrong output already at y=0")
             else:
                 CC.LOG.clear()
@@ -97,7 +87,7 @@ def check(case):
                 devs = CC.forensics(qc, n)
                 pred, cls = C03.attribute(devs)
                 if CC.LOG.get("inv_fails"):
-                    pred = None
+                    pred = "c03_inline_uncompute_stale_control" if CC.LOG.get("inv_class") == "inline-stale-control" else None
                 where.append(f"scratch/input dirty already at y=0 (uncompute_all first deviation class {cls})")
         else:
             CC.LOG.clear()
@@ -105,7 +95,7 @@ def check(case):
             devs = CC.forensics(qc, n, sp=sp, preset={out: Y})
             pred, cls = C03.attribute(devs)
             if [x for x in CC.LOG.get("inv_fails", []) if x[2] != out]:
-                pred = None
+                pred = "c03_inline_uncompute_stale_control" if CC.LOG.get("inv_class") == "inline-stale-control" else None
             where.append(f"clean at y=0; at y=1: wrong={w1} dirty={d1} twice_not_identity={twice_bad}; gates controlled by the output qubit: {controls_on_output}; "
                          f"uncompute_all first deviation over (x,y): {devs[0] if devs else None} class {cls}")
         d = (o.final[out] ^ f_tab ^ Y)
